@@ -117,6 +117,25 @@ def explore_program(forest):
                     stats["offered_accepted"] += 1
                     li = item_line(info, item, run)
                     out += [(s, w, ctx_) for s, w in effect_problems(kind, rec.get("item") or item, li, info, run, base, t, cls)]
+                    if kind == "cancel" and cls in ("Hold", "Pause") and item["name"] != cls \
+                            and sum(1 for _, c in lines if c.strip().startswith(("Hold", "Pause"))) == 1:
+                        # the same cancel while the run is ALSO paused by the user (timed Hold) / on hold (timed Pause): the
+                        # cancelled command must still end at once, so that after Unpause / Unhold the method goes on
+                        other, undo = ("Pause", "Unpause") if cls == "Hold" else ("Hold", "Unhold")
+                        sched3 = ((t, ("user", other)), (t + 1, ("cancel", item["id"])), (t + 4, ("user", undo)))
+                        run3, recs3 = drive(lines, sched3)
+                        stats["exec"] += 1
+                        stats["second_request"] += 1
+                        ctx3 = {"lines": [c for _, c in lines], "schedule": [[a, list(b)] for a, b in sched3]}
+                        if len(recs3) == 3 and all(r["accepted"] for r in recs3) and not run3.error_events and not base.error_events:
+                            stats["second_request_accepted"] += 1
+                            fl = run3.flags()
+                            short = collections.Counter(base.marks()) - collections.Counter(run3.marks())     # (an Alarm may run more often)
+                            if fl["holding"] or fl["paused"] or short:
+                                out.append((f"C12:cancelled-timed-{cls}-did-not-end:while-user-{other}-in-effect",
+                                            f"{item['name']} cancelled at tick {t + 1} while the user's {other} was in effect, {undo} at tick "
+                                            f"{t + 4}: at the horizon flags {fl}, marks {run3.marks()} (undisturbed run: {base.marks()})", ctx3))
+                        run3.cleanup()
                     if kind == "force" and len(lines) <= 3 and sum(1 for _, c in lines if c.strip().split(":")[0] == cls) == 1 \
                             and not any(c.strip().startswith("Alarm") for _, c in lines):       # (an Alarm runs its command line again)
                         # a second request for the same item: cancel it 1..3 ticks after the accepted force, if still offered
